@@ -314,7 +314,7 @@ def run_case(case):
 def optsets_for(devs):
     """budget: every case with <=1 deviation runs under all option sets; a pair runs under "ac" and "ac_qlim" plus the option
     sets that are about one of its deviations (angles: ext_grid / slack generator; voltage_depend_loads: ZIP load;
-    PYPOWER back-substitution and q-limit variants: generator; pandapower Newton: generator or ext_grid)"""
+    PYPOWER back-substitution and q-limit variants: generator; pandapower Newton: two generators)"""
     if len(devs) <= 1:
         return OPTSETS
     o = ["ac", "ac_qlim"]
@@ -329,7 +329,7 @@ def optsets_for(devs):
         o.append("ac_qlim_nonumba")
     if ge and zl:
         o.append("ac_qlim_novdl")
-    if sum(d[0] == "genx" for d in devs) == 2 or (eg and ge):
+    if sum(d[0] == "genx" for d in devs) == 2:
         o.append("ac_nols")
     return o
 
